@@ -12,7 +12,7 @@ RULE = ("dense images uint16/uint32/float32, shapes 1x1..64x64 (plus 2x65534 and
         "raw tosparse kernels, sortedness, permuted frames re-sorted, sparse_is_sorted return code on corrupted "
         "index lists; overlaps: two label images on one grid (1..N labels: disjoint, identical, partial, label at "
         "capacity, last pixels coinciding) through overlaps_linear, overlaps_matrix, overlaps() and the raw kernels "
-        "against a dense Counter, also on 70 000 - 200 000 pixel frames where one label pair shares more than 65535 pixels (overlaps_big); scan level: in-memory SparseScan objects through sinograms.properties.props / pairrow / pairscans (2-D peak table and overlaps between omega-adjacent frames and between two scan rows) against per-component sums and dense counts; non-trivial = nnz >= 2 on >= 2 rows (round trip) or >= 2 overlapping label pairs "
+        "against a dense Counter; segmenter: dense uint16/uint32 frames in an HDF5 file through lima_segmenter.segment_lima (cut, pixels_in_spot 1-3, detector mask) read back with SparseScan against numpy selection + scipy blob sizes; also on 70 000 - 200 000 pixel frames where one label pair shares more than 65535 pixels (overlaps_big); scan level: in-memory SparseScan objects through sinograms.properties.props / pairrow / pairscans (2-D peak table and overlaps between omega-adjacent frames and between two scan rows) against per-component sums and dense counts; non-trivial = nnz >= 2 on >= 2 rows (round trip) or >= 2 overlapping label pairs "
         "sharing a label (overlaps); distinct = hash of the case")
 WARMUP = ["ImageD11.sinograms.properties"]
 ASSUMPTIONS = ["empty selections are excluded: the library represents an empty frame as None (mask_to_coo returns 3)",
